@@ -72,7 +72,7 @@ def rich_world(seed, n_chroms=6, genes_per_chrom=3, groups=3, multimappers=True,
     rng = w.rng
     for ci in range(n_chroms):
         cname = "chr%d" % (ci + 1)
-        w.add_chrom(cname, 60000 + ci * 4321 + genes_per_chrom * 9000 + extra_len + (154000 if zoo else 0))
+        w.add_chrom(cname, 60000 + ci * 4321 + genes_per_chrom * 9000 + extra_len + (170000 if zoo else 0))
         pos = 1500
         for gi in range(genes_per_chrom):
             gid = "G%d_%d" % (ci + 1, gi + 1)
@@ -805,7 +805,7 @@ def gene_valley_locus(w, gid, chrom, p, strand):
 
 ZOO_ALL = ("ambiguous_only", "twins", "contested", "intronic", "apa", "alt_terminal", "shifted_site", "shared_chain", "same_coords",
            "one_bp_exon", "lowmapq_two_exon", "mono_only", "gap_gene", "gene_valley", "odd_chroms",
-           "near_site_novel", "low_cov_novel", "two_exon_alt_polya", "dense_two_exon", "antisense_shared_exon", "micro_exon_sibling", "mixed_strand_gene")
+           "near_site_novel", "low_cov_novel", "two_exon_alt_polya", "dense_two_exon", "antisense_shared_exon", "micro_exon_sibling", "mixed_strand_gene", "two_cluster")
 ZOO_NO_TIES = tuple(z for z in ZOO_ALL if z != "twins")
 
 
@@ -969,6 +969,10 @@ def add_zoo(w, parts=ZOO_ALL):
         if "micro_exon_sibling" in parts and room(7500):
             micro_exon_sibling_locus(w, "ZMX" + tag, chrom, _free_pos(w, chrom), "+-"[ci % 2], ("after", "before")[(ci // 2) % 2], abut=ci % 3 == 1)
             placed.add("micro_exon_sibling")
+        if "two_cluster" in parts and ci % 2 == 0 and room(15000):
+            # one reference isoform seen from two separate read clusters (5' and 3' fragments on either side of a long intron)
+            two_cluster_gene(w, "ZTC" + tag, chrom, _free_pos(w, chrom, 3000), "+-"[(ci // 2) % 2], n_iso=1 + (ci // 2) % 2)
+            placed.add("two_cluster")
         if "mixed_strand_gene" in parts and ci % 2 == 1 and room(7500):
             mixed_strand_gene_locus(w, "ZMG" + tag, chrom, _free_pos(w, chrom))
             placed.add("mixed_strand_gene")
